@@ -1,6 +1,7 @@
 package harness
 
 import (
+	"encoding/base64"
 	"encoding/binary"
 	"fmt"
 	"net"
@@ -329,6 +330,19 @@ func c04Entries(m *Model) []c04Entry {
 		}},
 		{name: "config.NewFromString", seeds: func(rng *RNG) [][]byte {
 			return [][]byte{[]byte("[libdefaults]\n default_realm = TEST.GOKRB5\n default_tkt_enctypes = aes256-cts-hmac-sha1-96 rc4-hmac\n ticket_lifetime = 10h\n[realms]\n TEST.GOKRB5 = {\n  kdc = 127.0.0.1:88\n  kdc = k2:88\n  admin_server = a:749\n  auth_to_local = {\n   x = y\n  }\n }\n[domain_realm]\n .test.gokrb5 = TEST.GOKRB5\n test.gokrb5 = TEST.GOKRB5\n")}
+		}, corpus: func() [][]byte {
+			// lines whose only '=', '{' or '}' sits in a trailing comment, relations without a value, brackets in odd
+			// places, in each of the three sections
+			var out [][]byte
+			lines := []string{"forwardable # forwardable = true", "noaddresses ; noaddresses=false", "kdc_timesync #=", "= # x", "x = # y = z", "#=", ";", "a = b = c",
+				"kdc # = {", "R = { # }", "} # {", "R = {} # = {", ".dom # = R", "= R", " = ", "x=", "[", "]", "[]", "[ realms ]", "{", "}", "{}"}
+			for _, sec := range []string{"[libdefaults]", "[realms]", "[domain_realm]", "[realms]\n R = {", "[appdefaults]"} {
+				for _, l := range lines {
+					out = append(out, []byte(sec+"\n "+l+"\n"))
+					out = append(out, []byte(sec+"\n "+l+"\n }\n"))
+				}
+			}
+			return out
 		}, run: func(b []byte) {
 			c, err := config.NewFromString(string(b))
 			if err == nil && c != nil {
@@ -354,6 +368,19 @@ func c04Entries(m *Model) []c04Entry {
 			if r.Unmarshal(b) == nil {
 				r.Decrypt(c04Key18)
 			}
+		}},
+		{name: "service.KRB5BasicAuthenticator.Authenticate (Basic header value)", seeds: func(rng *RNG) [][]byte {
+			var out [][]byte
+			for _, v := range []string{"user:password", `DOM\user:pw`, "user@DOM.EXAMPLE:p:w", ":", "u:", "nocolon", "", `\@:`, "user@:x"} {
+				out = append(out, []byte(base64.StdEncoding.EncodeToString([]byte(v))))
+			}
+			return out
+		}, run: func(b []byte) {
+			// no KDC is configured: a value that parses ends in a failed login, nothing goes out
+			cfg, _ := config.NewFromString("[libdefaults]\n default_realm = R\n dns_lookup_kdc = false\n[realms]\n R = {\n }\n")
+			kt := keytab.New()
+			a := service.NewKRB5BasicAuthenticator(string(b), cfg, service.NewSettings(kt), nil)
+			a.Authenticate()
 		}},
 		{name: "asn1tools length helpers", seeds: func(rng *RNG) [][]byte {
 			return [][]byte{{0x30, 0x03, 1, 2, 3}, {0x30, 0x82, 0x01, 0x00}, {0x30, 0x81, 0x80}}
